@@ -53,11 +53,11 @@ theorem httpRepl_reply (env : Env) (s s' : HttpSt) (d r : Bytes) (h : httpRepl e
   unfold httpRepl at h
   split at h
   · cases h
-  · simp only [Except.ok.injEq, Prod.mk.injEq] at h
-    obtain ⟨_, h⟩ := h
-    split at h
-    · exact (Option.some.inj h).symm
-    · cases h
+  · split at h
+    · simp only [Except.ok.injEq, Prod.mk.injEq, Option.some.injEq] at h
+      exact h.2.symm
+    · simp only [Except.ok.injEq, Prod.mk.injEq] at h
+      exact absurd h.2 (by simp)
 
 theorem httpReply_head (env : Env) : ∃ t, httpReplyBytes env = 72 :: 84 :: 84 :: 80 :: 47 :: 49 :: 46 :: t := by
   obtain ⟨rest, h⟩ := Texts.httpReply_status env
